@@ -6,15 +6,19 @@ package main
 //   pair shape=<fixed|echo|acc> reqs=a,b,c startval=V seed=S jitter=J park=P
 //       one target, callers 0..n-1; caller i issues reqs[i] sequential YieldFrom(target, i*1000+s) (s = 1..);
 //       the target performs (startval>0 ? 1 : 0) + sum(reqs) YieldRefs.  y_k is decided by the shape from what the
-//       target has received so far.  park=1 holds the target at cor.yieldref.afterRecv for every op until at
-//       least two further requests are queued (or no more can come), which forces opCh to fill beyond 5.
+//       target has received so far.  park=1 makes the target pause 300 µs before every third YieldRef so that
+//       requests pile up in opCh (beyond its buffer of 5 with enough callers).
 //       ty=int|any|ptr element type (interface{} / *int have a nil value); startval=nil: StartWithVal(zero of T);
 //       late=<ms> / slow=<ms>: the target starts serving late / sleeps before every YieldRef.
 //       Monitors (schedule independent): per caller the target saw exactly its x's in order; each caller got
 //       exactly the y's of its own requests in order; y_k is the shape's value; StartWithVal's value reached the
 //       first YieldRef.  Observation: "ok total=<T> first=<V|nil|none>"  or  "viol <kind> ...".
+//   zero ty=T     one caller asks [zero,5,zero,6], the target yields [3,zero,4,zero] (zero of T: 0 / nil) -> "ok zero"
 //   donot v=V     DoNotation returns the effect's result          -> "ok <V>"
-//   yfio v=V      YieldFromIO returns the IO's value              -> "ok <V>"
+//   donotyf v=V   the effect of DoNotation uses the coroutine it is given: self.YieldFrom(target, V), the target yields
+//                 V+100                                            -> "ok <V+100> saw=<V>"
+//   yfio v=V [on=1] [flat=1] [slow=ms]  YieldFromIO returns the IO's value (sync / observed on a Handler / FlatMap
+//                 chain v->v+1 / slow IO), evaluated exactly once  -> "ok <V>" ("ok <V+1>" for flat=1)
 //   flags         IsStarted/IsDone before Start, while running, after the effect returned -> "b0 b0 b1 b0 b1 b1"
 
 import (
@@ -23,6 +27,7 @@ import (
 	"strconv"
 	"strings"
 	"sync"
+	"sync/atomic"
 	"time"
 
 	fpgo "github.com/TeaEntityLab/fpGo/v2"
@@ -228,10 +233,88 @@ func c14PairG[T any](par map[string]string, box func(int) T, unbox func(T) (int,
 	if firstStr != wantFirst {
 		return fmt.Sprintf("viol startval first=%s want=%s", firstStr, wantFirst)
 	}
+	// close() sets isClosed right AFTER the effect returned (tdone is closed by the effect's own defer): give the
+	// target goroutine time to get there — on a loaded machine it may be descheduled in between
+	flagDeadline := time.Now().Add(3 * time.Second)
+	for !tg.IsDone() && time.Now().Before(flagDeadline) {
+		time.Sleep(100 * time.Microsecond)
+	}
 	if !tg.IsDone() || !tg.IsStarted() {
 		return "viol flags"
 	}
 	return fmt.Sprintf("ok total=%d first=%s", total, firstStr)
+}
+
+// c14Zero: requests and yielded values that are the zero value of T (nil for interface{} / pointers) are values
+// like any other: one caller asks [zero, 5, zero, 6], the target yields [3, zero, 4, zero]; the target must see
+// exactly those requests and the caller exactly those answers.
+func c14Zero(par map[string]string) string {
+	switch par["ty"] {
+	case "any":
+		return c14ZeroG[interface{}](func(i int) interface{} { return i }, func(v interface{}) string {
+			if v == nil {
+				return "z"
+			}
+			return strconv.Itoa(v.(int))
+		})
+	case "ptr":
+		return c14ZeroG[*int](func(i int) *int { return &i }, func(v *int) string {
+			if v == nil {
+				return "z"
+			}
+			return strconv.Itoa(*v)
+		})
+	}
+	return c14ZeroG[int](func(i int) int { return i }, func(v int) string {
+		if v == 0 {
+			return "z"
+		}
+		return strconv.Itoa(v)
+	})
+}
+
+func c14ZeroG[T any](box func(int) T, show func(T) string) string {
+	var zero T
+	xs := []T{zero, box(5), zero, box(6)}
+	ys := []T{box(3), zero, box(4), zero}
+	var saw, got []string
+	var tg *fpgo.CorDef[T]
+	tdone := make(chan struct{})
+	tg = fpgo.CorNewGenerics[T](func() {
+		defer close(tdone)
+		for _, y := range ys {
+			saw = append(saw, show(tg.YieldRef(y)))
+		}
+	})
+	tg.Start()
+	cdone := make(chan struct{})
+	go func() {
+		defer close(cdone)
+		me := fpgo.CorNewGenerics[T](func() {})
+		for _, x := range xs {
+			got = append(got, show(me.YieldFrom(tg, x)))
+		}
+	}()
+	deadline := time.After(5 * time.Second)
+	for _, ch := range []chan struct{}{cdone, tdone} {
+		select {
+		case <-ch:
+		case <-deadline:
+			select {
+			case <-cdone:
+				return "viol hang target-still-waiting-for-requests caller-returned"
+			default:
+				return "viol hang caller-blocked"
+			}
+		}
+	}
+	if strings.Join(saw, ",") != "z,5,z,6" {
+		return "viol zero-request target-saw=" + strings.Join(saw, ",")
+	}
+	if strings.Join(got, ",") != "3,z,4,z" {
+		return "viol zero-answer caller-got=" + strings.Join(got, ",")
+	}
+	return "ok zero"
 }
 
 func c14Bool(b bool) string {
@@ -255,22 +338,74 @@ func c14Run(line string) string {
 	switch fields[0] {
 	case "pair":
 		return c14Pair(par)
+	case "zero":
+		return c14Zero(par)
 	case "donot":
 		v, _ := strconv.Atoi(par["v"])
 		var c fpgo.CorDef[int]
 		r := c.DoNotation(func(self *fpgo.CorDef[int]) int { return v })
 		return "ok " + strconv.Itoa(r)
-	case "yfio":
+	case "donotyf":
+		// the coroutine DoNotation hands to the effect is a working caller: the effect asks another coroutine
 		v, _ := strconv.Atoi(par["v"])
-		var c fpgo.CorDef[int]
-		evals := 0
-		r := c.DoNotation(func(self *fpgo.CorDef[int]) int {
-			return self.YieldFromIO(fpgo.MonadIONewGenerics(func() int { evals++; return v }))
-		})
-		if evals != 1 {
-			return "viol io-evaluated " + strconv.Itoa(evals)
+		saw := -1
+		var tg *fpgo.CorDef[int]
+		tg = fpgo.CorNewGenerics[int](func() { saw = tg.YieldRef(v + 100) })
+		tg.Start()
+		res := make(chan int, 1)
+		go func() {
+			var c fpgo.CorDef[int]
+			res <- c.DoNotation(func(self *fpgo.CorDef[int]) int { return self.YieldFrom(tg, v) })
+		}()
+		select {
+		case r := <-res:
+			deadline := time.Now().Add(3 * time.Second)
+			for !tg.IsDone() && time.Now().Before(deadline) {
+				time.Sleep(100 * time.Microsecond)
+			}
+			if !tg.IsDone() {
+				return "viol hang target-never-finished"
+			}
+			return fmt.Sprintf("ok %d saw=%d", r, saw)
+		case <-time.After(5 * time.Second):
+			return "viol hang DoNotation-never-returned"
 		}
-		return "ok " + strconv.Itoa(r)
+	case "yfio":
+		// on=1: the IO is observed on a Handler (its effect runs on the handler's goroutine, YieldFromIO has to wait
+		// for it); flat=1: the IO is a FlatMap chain (v -> v+1); slow=<ms>: the IO takes that long
+		v, _ := strconv.Atoi(par["v"])
+		slow, _ := strconv.Atoi(par["slow"])
+		var evals int32
+		io := fpgo.MonadIONewGenerics(func() int {
+			atomic.AddInt32(&evals, 1)
+			if slow > 0 {
+				time.Sleep(time.Duration(slow) * time.Millisecond)
+			}
+			return v
+		})
+		if par["flat"] == "1" {
+			io = io.FlatMap(func(x int) *fpgo.MonadIODef[int] { return fpgo.MonadIOJustGenerics(x + 1) })
+		}
+		var h *fpgo.HandlerDef
+		if par["on"] == "1" {
+			h = fpgo.Handler.New()
+			defer h.Close()
+			io = io.ObserveOn(h)
+		}
+		res := make(chan int, 1)
+		go func() {
+			var c fpgo.CorDef[int]
+			res <- c.DoNotation(func(self *fpgo.CorDef[int]) int { return self.YieldFromIO(io) })
+		}()
+		select {
+		case r := <-res:
+			if n := atomic.LoadInt32(&evals); n != 1 {
+				return "viol io-evaluated " + strconv.Itoa(int(n))
+			}
+			return "ok " + strconv.Itoa(r)
+		case <-time.After(5*time.Second + time.Duration(slow)*time.Millisecond):
+			return "viol hang YieldFromIO-never-returned"
+		}
 	case "flags":
 		gate := make(chan struct{})
 		inside := make(chan struct{})
@@ -318,10 +453,20 @@ func c14Gen(tier string, rng *rand.Rand, emit func(string)) map[string]interface
 		e(fmt.Sprintf("pair ty=%s shape=acc reqs=2,2 startval=6 seed=10 jitter=1 park=0", ty))
 		e(fmt.Sprintf("pair ty=%s shape=acc reqs=4,1 startval=0 seed=11 jitter=0 park=1", ty))
 	}
+	// zero / nil requests and yielded values are values like any other
+	for _, ty := range []string{"int", "any", "ptr"} {
+		e("zero ty=" + ty)
+	}
 	e("donot v=0")
 	e("donot v=41")
+	e("donotyf v=5")
+	e("donotyf v=0")
 	e("yfio v=7")
 	e("yfio v=0")
+	e("yfio v=8 on=1")
+	e("yfio v=9 on=1 slow=30")
+	e("yfio v=10 flat=1")
+	e("yfio v=11 flat=1 on=1 slow=10")
 	e("flags")
 	rounds := 30
 	if tier == "thorough" {
